@@ -1327,6 +1327,8 @@ def run(ctx):
     rule_resolve(ctx, ts, reg)
     rule_options(ctx, ts, reg)
     rule_omit_scope(ctx, ts, px)
+    from checks import _lines
+    _lines.rule_comment_eol(ctx, ts, "R-C06-COMMENT-EOL", floor=10)
     rule_std_includes(ctx, px)
     rule_omit_std_types(ctx, ts)
     rule_cpp_omit_std(ctx, ts, ctx.root)
